@@ -56,6 +56,40 @@ theorem read_complete_or_error (k : Kind) (name : Option Str) (text : Str) (ms :
         (m.atoms.length : Int) = b.header.nAtoms ∧ some (m.bonds.length : Int) = b.header.nBonds) bs ms :=
   loadsAll_complete table bonds k name text ms h
 
+/-- the driver reports, beside each molecule, every further field the reader fills (formal charges, atom and bond
+attributes: `loadsAllEx`); its molecules are exactly those of `loadsAll`, and it fails exactly when `loadsAll` fails -/
+theorem loadsAllEx_fst (k : Kind) (name : Option Str) (text : Str) :
+    (match loadsAllEx table bonds k name text with
+     | .ok xs => .ok (xs.map (·.1))
+     | .error e => .error e) = loadsAll table bonds k name text := by
+  unfold loadsAllEx loadsAll
+  cases readBlocks text with
+  | error e => rfl
+  | ok bs =>
+    simp only
+    induction bs with
+    | nil => rfl
+    | cons b bs ih =>
+      simp only [mapE]
+      cases hb : buildMol table bonds k name b with
+      | error e => rfl
+      | ok m =>
+        simp only
+        revert ih
+        cases mapE (fun b => match buildMol table bonds k name b with
+            | .ok m => Except.ok (m, blockExtras b)
+            | .error e => .error e) bs with
+        | error e =>
+          intro ih
+          cases hm : mapE (buildMol table bonds k name) bs with
+          | error e' => simp only [hm] at ih ⊢; simpa using ih
+          | ok r => simp [hm] at ih
+        | ok xs =>
+          intro ih
+          cases hm : mapE (buildMol table bonds k name) bs with
+          | error e' => simp [hm] at ih
+          | ok r => simp only [hm, Except.ok.injEq] at ih ⊢; simp [ih]
+
 /-- `no_cross_molecule_state`: "never … a block mixing two molecules": whatever the reader has seen before
 (any state `st`), from a `@<TRIPOS>MOLECULE` line on it returns exactly what it returns for that text
 alone, after the block that was pending; no atom or bond read earlier can enter a later molecule.
@@ -141,6 +175,21 @@ theorem mol2_atom_tail_counterexample :
     ((loadsAll table bonds .molecule none
       "@<TRIPOS>MOLECULE\nm\n1 0\nS\nUSER_CHARGES\n\n@<TRIPOS>BOND\n@<TRIPOS>ATOM\n1 C 0 0 0 C 1 U 0.2".toList).toOption.map
         (fun ms => ms.map (fun m => m.atoms.map (·.charge)))) = some [[.fin false 2 (-1)]] := by
+  decide +kernel
+
+/-- `mol2_attribute_section_counterexample` (known finding): in a FOREIGN layout an optional UNITY attribute
+section may follow the last record section; a text cut exactly in front of it is a well-formed file that never had
+the section, so the molecule comes back complete but without the attribute (formal charge 1 becomes 0). A cut inside
+the section is rejected. molli never writes such a section. -/
+theorem mol2_attribute_section_counterexample :
+    ((loadsAllEx table bonds .molecule none
+      "@<TRIPOS>MOLECULE\nm\n1 0\nS\nNO_CHARGES\n\n@<TRIPOS>ATOM\n1 N 0 0 0 N.4\n@<TRIPOS>BOND\n@<TRIPOS>UNITY_ATOM_ATTR\n1 1\ncharge 1\n@<TRIPOS>X\n".toList).toOption.map
+        (fun xs => xs.map (fun x => x.2.1.map (·.1)))) = some [[1]] ∧
+    ((loadsAllEx table bonds .molecule none
+      "@<TRIPOS>MOLECULE\nm\n1 0\nS\nNO_CHARGES\n\n@<TRIPOS>ATOM\n1 N 0 0 0 N.4\n@<TRIPOS>BOND\n".toList).toOption.map
+        (fun xs => xs.map (fun x => x.2.1.map (·.1)))) = some [[0]] ∧
+    ((loadsAllEx table bonds .molecule none
+      "@<TRIPOS>MOLECULE\nm\n1 0\nS\nNO_CHARGES\n\n@<TRIPOS>ATOM\n1 N 0 0 0 N.4\n@<TRIPOS>BOND\n@<TRIPOS>UNITY_ATOM_ATTR\n1 1\n".toList).toOption) = none := by
   decide +kernel
 
 /-- `truncation_prefix` (mol2): "for every truncation point (all line boundaries)": the text of any
